@@ -113,7 +113,7 @@ class ComposeMonitor(taps.Monitor):
         ctx.err("composition_law_rel", e / scale)
         if not ok2.all():
             ctx.fail("composed_transform_rejects_points_the_operands_accept", cls=type(c).__name__, mech=pair)
-        if e > 1e-8 * scale:
+        if not (e <= 1e-8 * scale):
             ctx.fail("composition_law_violated", cls=ka, mech=self.direction + ":" + kb, err=e, result=type(c).__name__)
         if isinstance(a, mt.Homogeneous) and isinstance(b, mt.Homogeneous):
             if not isinstance(c, mt.Homogeneous) or isinstance(c, mt.TransformChain):
@@ -173,7 +173,7 @@ class InplaceMonitor(taps.Monitor):
         r = ref[ok][ok2]
         scale = max(1.0, float(np.abs(r).max())) if r.size else 1.0
         e = tx.maxdiff(got[ok2], r)
-        if e > 1e-8 * scale:
+        if not (e <= 1e-8 * scale):
             ctx.fail("inplace_composition_law_violated", cls=ka, mech=self.direction + ":" + kb, err=e)
         import menpo.transform as mt
         if isinstance(a, mt.Homogeneous) and tx.honest(a):
@@ -205,7 +205,7 @@ class DecomposeMonitor(taps.Monitor):
                 ctx.fail("decomposition_part_not_honest", cls=type(p).__name__, mech=cls, problems=pr)
         e = np.abs(h - st["h"]).max()
         ctx.err("decompose_recompose", e)
-        if e > 1e-9 * max(1.0, np.abs(st["h"]).max()):
+        if not (e <= 1e-9 * max(1.0, np.abs(st["h"]).max())):
             ctx.fail("decomposition_does_not_recompose", cls=cls, err=float(e))
         x = probe_pts(a.n_dims)
         y = x
@@ -361,7 +361,7 @@ def w_programs(ctx, rng, i):
         scale = max(1.0, float(np.abs(y[ok]).max())) if ok.any() else 1.0
         ctx.err("program_law_rel", e / scale)
         ctx.tap("program_final_map", "calls"); ctx.tap("program_final_map", "checked")
-        if e > 1e-7 * scale:
+        if not (e <= 1e-7 * scale):
             ctx.fail("program_of_compositions_differs_from_sequential_application", cls=type(cur).__name__, mech="homog" if homog_only else "mixed",
                      ops=ops, err=e)
     except Exception as e:
